@@ -4,6 +4,7 @@ package limgen
 
 import (
 	"fmt"
+	"github.com/platinummonkey/go-concurrency-limits/measurements"
 	"math"
 	"math/rand/v2"
 	"os"
@@ -23,10 +24,11 @@ type Spec struct {
 	Backoff   float64 `json:"backoff,omitempty"`
 	IncBy     int     `json:"increase_by,omitempty"`
 	ProbeMult int     `json:"probe_multiplier,omitempty"`
-	MaxArg    string  `json:"max_argument,omitempty"` // "" (Max is passed) | "0" | "-1": the constructor is asked for its default maximum (1000), Max holds 1000
-	Debug     bool    `json:"debug_logger,omitempty"` // built with a logger whose IsDebugEnabled() is true (output discarded)
-	Funcs     string  `json:"vegas_custom_functions,omitempty"` // "" (defaults) | decrease=half | decrease=minus3 | threshold=0 | threshold=-1 | increase=plus2
-	QueueKind string  `json:"queue_kind,omitempty"` // fixed | sqrt
+	MaxArg    string  `json:"max_argument,omitempty"`               // "" (Max is passed) | "0" | "-1": the constructor is asked for its default maximum (1000), Max holds 1000
+	Debug     bool    `json:"debug_logger,omitempty"`               // built with a logger whose IsDebugEnabled() is true (output discarded)
+	NoLoad    string  `json:"vegas_baseline_measurement,omitempty"` // "" (default minimum) | single: a caller-supplied measurements.SingleMeasurement
+	Funcs     string  `json:"vegas_custom_functions,omitempty"`     // "" (defaults) | decrease=half | decrease=minus3 | threshold=0 | threshold=-1 | increase=plus2
+	QueueKind string  `json:"queue_kind,omitempty"`                 // fixed | sqrt
 	QueueArg  int     `json:"queue_arg,omitempty"`
 	RTTTol    float64 `json:"rtt_tolerance,omitempty"`
 	ProbeInt  int     `json:"probe_interval,omitempty"`
@@ -148,7 +150,11 @@ func (s Spec) New(reg core.MetricRegistry, name string, tags ...string) core.Lim
 		case "increase=plus2":
 			inc = func(l float64) float64 { return l + 2 }
 		}
-		return limit.NewVegasLimitWithRegistry(name, s.Initial, nil, s.maxArg(), s.Smoothing, nil, nil, thr, inc, dec,
+		var noLoad core.MeasurementInterface
+		if s.NoLoad == "single" {
+			noLoad = &measurements.SingleMeasurement{}
+		}
+		return limit.NewVegasLimitWithRegistry(name, s.Initial, noLoad, s.maxArg(), s.Smoothing, nil, nil, thr, inc, dec,
 			s.ProbeMult, s.logger(), reg, tags...)
 	case "gradient":
 		return limit.NewGradientLimitWithRegistry(name, s.Initial, s.Min, s.maxArg(), s.Smoothing, s.Queue(), s.RTTTol,
@@ -161,6 +167,18 @@ func (s Spec) New(reg core.MetricRegistry, name string, tags ...string) core.Lim
 		return l
 	}
 	panic("kind " + s.Kind)
+}
+
+// TryNew is New for configurations a constructor is free to refuse (Gradient2 returns an error): nil, err in that case.
+func (s Spec) TryNew(reg core.MetricRegistry, name string, tags ...string) (core.Limit, error) {
+	if s.Kind == "gradient2" {
+		l, err := limit.NewGradient2Limit(name, s.Initial, s.Max, s.Min, s.Queue(), s.Smoothing, s.LongWin, s.logger(), reg, tags...)
+		if err != nil {
+			return nil, err
+		}
+		return l, nil
+	}
+	return s.New(reg, name, tags...), nil
 }
 
 // LargeTables reports whether this process was started with the pre-computed log10 / sqrt tables enlarged through
